@@ -17,6 +17,33 @@ theorem encoder_depends_on_norm (e : EncState) (c1 c2 : Container) (huff : Bool)
     e.encodeApi true c1 huff = e.encodeApi true c2 huff := by
   unfold EncState.encodeApi; rw [h]
 
+theorem formsLoop_eq (huff : Bool) (fs : List FieldForm) (e : EncState) (acc : Bytes) :
+    encodeFormsLoop true huff e acc fs = EncState.encode.go true huff e acc (fs.map FieldForm.norm) := by
+  induction fs generalizing e acc with
+  | nil => rfl
+  | cons f rest ih =>
+    have hn : f.norm = (f.name.toBytes, f.value.toBytes, f.sensitiveFlag) := by cases f <;> rfl
+    simp only [encodeFormsLoop, List.map_cons, hn, EncState.encode.go, bind]
+    cases e.add true f.name.toBytes f.value.toBytes f.sensitiveFlag huff with
+    | ok r => simp only; exact ih _ _
+    | err x => rfl
+    | esc x => rfl
+
+/-- **factorisation**: the loop of `Encoder.encode` as written — flag re-initialised per header, read from the
+    header's own shape, a dict first turned into 2-tuples in `_dict_to_iterable` order — computes exactly
+    `encode` of the normalised (name bytes, value bytes, sensitivity) sequence -/
+theorem forms_factor (e : EncState) (c : Container) (huff : Bool) :
+    e.encodeForms true c huff = e.encodeApi true c huff := by
+  unfold EncState.encodeForms EncState.encodeApi EncState.encode
+  have hitems : c.items.map FieldForm.norm = c.norm := by
+    cases c with
+    | iterable fs => rfl
+    | dict items => simp [Container.items, Container.norm, List.map_map, Function.comp_def, FieldForm.norm]
+  by_cases hr : e.table.resized = true
+  · simp only [hr, if_true, formsLoop_eq, hitems, bind]
+  · have hr' : e.table.resized = false := by simpa using hr
+    simp only [hr', Bool.false_eq_true, if_false, formsLoop_eq, hitems, bind]
+
 /-- text and its UTF-8 bytes are interchangeable -/
 theorem text_is_utf8 (s : String) : (PyStr.text s).toBytes = (PyStr.bytes s.toUTF8.data.toList).toBytes := rfl
 
